@@ -64,7 +64,7 @@ impl Template {
         r is Err ==> (exists|k: int| 0 <= k < self.elements@.len() && (
             final(writer).log@ == old(writer).log@ + #[trigger] children(self, runtime.ident(), k)
             || final(writer).log@ == (old(writer).log@ + children(self, runtime.ident(), k)).push(Ev::Partial(self.elements@[k].rid(), runtime.ident())))),   // [C10:template_stops_at_first_error]
-//@ edit <<for el in &self.elements>> => <<for el in it: &self.elements>> why: names Verus' ghost iterator so that the invariant can refer to the position
+//@ editre <<for (\w+) in &self\.elements>> => <<for \1 in it: &self.elements>> why: names Verus' ghost iterator so that the invariant can refer to the position
 //@ loop 0 kind=for
     invariant_except_break
         writer.log@ == old(writer).log@ + children(self, runtime.ident(), it.index@),
@@ -75,7 +75,7 @@ impl Template {
         exists|k: int| 0 <= k <= self.elements@.len() && writer.log@ == old(writer).log@ + #[trigger] children(self, runtime.ident(), k),
 //@ prologue
     proof { assert(old(writer).log@ + children(self, runtime.ident(), 0) =~= old(writer).log@); }
-//@ ghost after <<el.render_to(writer, runtime)?;>>
+//@ ghost after re<<\w+\.render_to\(writer, runtime\)\??;>>
     proof { lemma_children_step(self, runtime.ident(), it.index@, old(writer).log@); }
 //@ end
 }
